@@ -1,8 +1,174 @@
 (** C08 proofs. *)
 From Coq Require Import ZArith List Bool Lia ZifyBool.
 From AwkV Require Import Base Layout LayoutInd Valid Types Carry Proofs_C11.
-From AwkMerge Require Import Merge.
+From AwkMerge Require Import Merge Lemmas_C08.
+Import ListNotations.
+Open Scope Z_scope.
 
-(* (a) the C++ promotion switch is NumPy's promotion, on all 121 pairs *)
+(* ================================================================ (a) promotion *)
 Lemma promotion_table_is_numpy_pf : forall a b, promote a b = numpy_promote a b.
 Proof. destruct a, b; reflexivity. Qed.
+
+(* the fill switch accepts every source the promotion can produce: NumpyArray::mergemany never reaches
+   its "dtype not in {...}" runtime errors *)
+Lemma fill_ok_promote_pf : forall a b, fill_ok a (promote a b) = true /\ fill_ok b (promote a b) = true.
+Proof. destruct a, b; split; reflexivity. Qed.
+Lemma promote_idem : forall a, promote a a = a.
+Proof. destruct a; reflexivity. Qed.
+Lemma fill_ok_trans : forall a b c, fill_ok a b = true -> fill_ok b c = true -> fill_ok a c = true.
+Proof. destruct a, b, c; cbn; intros; congruence. Qed.
+Lemma fill_ok_refl : forall a, fill_ok a a = true.
+Proof. destruct a; reflexivity. Qed.
+Lemma fill_ok_promote_l : forall a b, fill_ok a (promote a b) = true.
+Proof. intros. apply fill_ok_promote_pf. Qed.
+Lemma fill_ok_promote_r : forall a b, fill_ok b (promote a b) = true.
+Proof. intros. apply fill_ok_promote_pf. Qed.
+
+(* ================================================================ length of the value list *)
+Lemma chunks_nat_length {A} (vs : list A) n c : length (chunks_nat vs n c) = c.
+Proof. revert vs. induction c; cbn; intros; [reflexivity|]. now rewrite IHc. Qed.
+
+Lemma chunks_zlen {A} (vs : list A) size zl r :
+  chunks vs size zl = Ok r -> 0 <= size /\ zlen r = (if size =? 0 then zl else zlen vs / size).
+Proof.
+  unfold chunks. destruct (size <? 0) eqn:E1; [discriminate|].
+  destruct (size =? 0) eqn:E2.
+  - destruct (zl <? 0) eqn:E3; [discriminate|]. intros H; inversion H; subst.
+    split; [lia|]. rewrite zlen_map, zlen_iota; lia.
+  - intros H; inversion H; subst. split; [lia|].
+    unfold zlen at 1. rewrite chunks_nat_length.
+    pose proof (zlen_nonneg vs). assert (0 <= zlen vs / size) by (apply Z.div_pos; lia). lia.
+Qed.
+
+Lemma prodZ_nonneg l : Forall (fun d => 0 <= d) l -> 0 <= prodZ l.
+Proof. induction 1; cbn; [lia|]. unfold prodZ in *. cbn. nia. Qed.
+
+Lemma nest_zlen dims : forall count vs r,
+  Forall (fun d => 0 <= d) dims -> 0 <= count ->
+  zlen vs = count * prodZ dims -> nest dims count vs = Ok r -> zlen r = count.
+Proof.
+  induction dims as [|d ds IH]; intros count vs r HF Hc Hl H; cbn in H.
+  - inversion H; subst. unfold prodZ in Hl; cbn in Hl. lia.
+  - inversion HF; subst.
+    apply bind_ok in H. destruct H as (inner & Hi & H).
+    apply bind_ok in H. destruct H as (ch & Hch & H). inversion H; subst.
+    assert (Hinner : zlen inner = count * d).
+    { eapply IH; eauto; [nia|]. rewrite Hl. unfold prodZ. cbn. fold (prodZ ds). ring. }
+    apply chunks_zlen in Hch. destruct Hch as [_ Hch]. rewrite zlen_map, Hch.
+    destruct (d =? 0) eqn:E; [reflexivity|]. rewrite Hinner. apply Z.div_mul. lia.
+Qed.
+
+Lemma existsb_neg_Forall l : existsb (fun d => d <? 0) l = false -> Forall (fun d => 0 <= d) l.
+Proof.
+  induction l; cbn; intros H; constructor.
+  - apply orb_false_iff in H. lia.
+  - apply IHl. apply orb_false_iff in H. tauto.
+Qed.
+
+Lemma pairs_length o : o <> [] -> length (pairs o) = (length o - 1)%nat.
+Proof.
+  induction o as [|a [|b t] IH]; intros H; try congruence; try reflexivity.
+  change (pairs (a :: b :: t)) with ((a, b) :: pairs (b :: t)). cbn [length].
+  rewrite IH by discriminate. cbn [length]. lia.
+Qed.
+Lemma zip_length {A B} (l : list A) (m : list B) : length (zip l m) = Nat.min (length l) (length m).
+Proof. revert m. induction l; destruct m; cbn; auto. Qed.
+
+Lemma all_fix_to_list cs :
+  (fix all (l : list content) : res (list (list value)) :=
+     match l with
+     | [] => Ok []
+     | x :: xs => do v <- to_list x; do vs <- all xs; Ok (v :: vs)
+     end) cs = mapM to_list cs.
+Proof. induction cs as [|x xs IH]; cbn; [reflexivity|]. now rewrite IH. Qed.
+
+Theorem to_list_len c : forall vs, to_list c = Ok vs -> zlen vs = clen c.
+Proof.
+  induction c using content_ind'; intros vs HT; cbn [to_list clen] in *.
+  - (* Numpy *)
+    destruct shape as [|n dims]; [discriminate|].
+    destruct (existsb (fun d => d <? 0) (n :: dims)) eqn:E; [discriminate|].
+    destruct (zlen data <? prodZ (n :: dims)) eqn:E2; [discriminate|].
+    apply bind_ok in HT. destruct HT as (r & Hr & HT). inversion HT; subst.
+    apply existsb_neg_Forall in E. inversion E; subst.
+    pose proof (prodZ_nonneg _ E).
+    eapply nest_zlen; eauto.
+    rewrite zlen_map, zlen_take by lia. unfold prodZ. reflexivity.
+  - inversion HT. reflexivity.
+  - (* ListOffset *)
+    apply bind_ok in HT. destruct HT as (v & Hv & HT). apply rmap_ok in HT. destruct HT as (r & Hr & ->).
+    unfold cut in Hr. destruct o as [|a t]; [discriminate|].
+    apply mapM_length in Hr. rewrite zlen_map. unfold zlen. rewrite Hr, pairs_length by discriminate.
+    cbn [length]. lia.
+  - (* ListA *)
+    apply bind_ok in HT. destruct HT as (v & Hv & HT). apply rmap_ok in HT. destruct HT as (r & Hr & ->).
+    unfold cut2 in Hr. destruct (zlen e <? zlen s) eqn:E; [discriminate|].
+    apply mapM_length in Hr. rewrite zlen_map. unfold zlen in *. rewrite Hr, zip_length. lia.
+  - (* Regular *)
+    apply bind_ok in HT. destruct HT as (v & Hv & HT). apply rmap_ok in HT. destruct HT as (r & Hr & ->).
+    apply chunks_zlen in Hr. destruct Hr as [_ Hr]. rewrite zlen_map, Hr.
+    destruct (size =? 0); [reflexivity|]. now rewrite (IHc _ Hv).
+  - apply bind_ok in HT. destruct HT as (v & Hv & HT). now apply mapM_zlen in HT.
+  - apply bind_ok in HT. destruct HT as (v & Hv & HT). now apply mapM_zlen in HT.
+  - (* ByteMasked *)
+    apply bind_ok in HT. destruct HT as (v & Hv & HT). apply mapM_length in HT.
+    unfold zlen. rewrite HT, zip_length. unfold iota. rewrite iota_nat_length. unfold zlen. lia.
+  - (* BitMasked *)
+    apply bind_ok in HT. destruct HT as (v & Hv & HT). destruct (n <? 0) eqn:E; [discriminate|].
+    apply mapM_zlen in HT. rewrite HT. apply zlen_iota. lia.
+  - auto.
+  - (* Union *)
+    rewrite all_fix_to_list in HT.
+    apply bind_ok in HT. destruct HT as (v & Hv & HT). destruct (zlen ix <? zlen t) eqn:E; [discriminate|].
+    apply mapM_length in HT. unfold zlen in *. rewrite HT, zip_length. lia.
+  - (* Record *)
+    rewrite all_fix_to_list in HT.
+    apply bind_ok in HT. destruct HT as (v & Hv & HT). destruct (n <? 0) eqn:E; [discriminate|].
+    apply mapM_zlen in HT. rewrite HT. apply zlen_iota. lia.
+  - (* Par *)
+    apply bind_ok in HT. destruct HT as (v & Hv & HT). rewrite <- (IHc _ Hv).
+    destruct arr as [[]|]; try (inversion HT; reflexivity); now apply mapM_zlen in HT.
+Qed.
+
+(* ================================================================ (c) merge_as_union *)
+Theorem merge_as_union_app_pf a b va vb :
+  to_list a = Ok va -> to_list b = Ok vb -> to_list (merge_as_union a b) = Ok (va ++ vb).
+Proof.
+  intros Ha Hb. pose proof (to_list_len _ _ Ha) as La. pose proof (to_list_len _ _ Hb) as Lb.
+  pose proof (zlen_nonneg va). pose proof (zlen_nonneg vb).
+  unfold merge_as_union. cbn [to_list]. rewrite Ha, Hb. cbn [bind].
+  unfold zeros, consts. rewrite <- La, <- Lb.
+  rewrite !zlen_app, !zlen_map, !zlen_iota by lia.
+  destruct (zlen va + zlen vb <? zlen va + zlen vb) eqn:E; [lia|].
+  rewrite zip_app by (rewrite map_length; reflexivity).
+  rewrite mapM_app.
+  rewrite !zip_map_l, !zip_same, !map_map, !mapM_map. cbn [fst snd].
+  assert (E0 : get [va; vb] 0 = Ok va) by reflexivity.
+  assert (E1 : get [va; vb] 1 = Ok vb) by reflexivity.
+  rewrite E0, E1. cbn [bind].
+  rewrite !mapM_get_iota. reflexivity.
+Qed.
+
+Lemma forallb_app' {A} (f : A -> bool) l m : forallb f (l ++ m) = forallb f l && forallb f m.
+Proof. apply forallb_app. Qed.
+
+Theorem merge_as_union_valid_pf a b :
+  valid_b a = true -> valid_b b = true -> unionlike a = false -> unionlike b = false ->
+  valid_b (merge_as_union a b) = true.
+Proof.
+  unfold valid_b. intros Va Vb Ua Ub. unfold merge_as_union. cbn [validb paramcheck existsb].
+  rewrite Ua, Ub, Va, Vb. cbn [orb negb andb].
+  unfold zeros, consts.
+  assert (Hl : zlen (map (fun _ : Z => 0) (iota (clen a)) ++ map (fun _ : Z => 1) (iota (clen b)))
+               <=? zlen (iota (clen a) ++ iota (clen b)) = true).
+  { rewrite !zlen_app, !zlen_map. lia. }
+  rewrite Hl. cbn [andb]. rewrite andb_true_r.
+  rewrite zip_app by (rewrite map_length; reflexivity).
+  rewrite forallb_app. rewrite !zip_map_l, !zip_same, !map_map. cbn [fst snd].
+  rewrite !forallb_forall. split.
+  - apply andb_true_iff. split; apply forallb_forall; intros p Hp; apply in_map_iff in Hp;
+      destruct Hp as (i & <- & Hi); apply iota_In in Hi; unfold union_okb; cbn [map].
+    + change (get [clen a; clen b] 0) with (Ok (clen a)). lia.
+    + change (get [clen a; clen b] 1) with (Ok (clen b)). lia.
+  - reflexivity.
+Qed.
